@@ -66,6 +66,10 @@ CLAIMS["C02"] = ("other", "provenance of the hand index / player index in every 
   "Decides that the id → hand index → player index translation is carried unchanged through every action, hand start and settlement, and that the hand list is built only from a full-circle seat-map scan of dealt-in players. One genuine defect (short-deck hand order by join order) was repaired (fix: commit). Numeric correctness of seat order for every fake-dealer layout is not decided.",
   "DESIGN.md §4 C02, §5 F10", TRUST)
 
+CLAIMS["C06"] = ("other", "constant-table check of the label rows over the typed syntax tree (go/constant), rotation-constant agreement, who-may-write of player labels, induction-range/guard shape of the next-BB scan with call-site argument provenance, getter↔field pairing of the published seats",
+  "Decides that every label row is well formed, that the rotation constant puts bb first, who may write labels, that labels reach the hand engine, that the next-BB list is a bb+1…bb+N scan of occupied seats with chips computed at settlement from the seat manager's BB seat, and that published seats are not cross-wired. Label order for dead-button / dead-small-blind / sitting-out layouts is numeric over seat states and is not decided.",
+  "DESIGN.md §4 C06", TRUST)
+
 REASONS = {}
 
 checks = []
